@@ -515,8 +515,7 @@ fn convert_intensity(p: &mut Point) {
 
 struct Range {
     min: f64,
-    max: f64,
-    inv_range: f64,
+    half_range: f64,
 }
 
 impl Range {
@@ -562,16 +561,12 @@ impl Range {
     }
 
     fn from_min_max(min: f64, max: f64) -> Result<Self> {
-        let range = max - min;
-        if range < 0.0 {
+        // All calculations use halved values to avoid an overflow for very large ranges
+        let half_range = max * 0.5 - min * 0.5;
+        if half_range < 0.0 {
             Error::invalid(format!("Found invalid range: min={min}, max={max}"))?;
         }
-        let inv_range = 1.0 / range;
-        Ok(Self {
-            min,
-            max,
-            inv_range,
-        })
+        Ok(Self { min, half_range })
     }
 
     fn intensity_from_pointcloud(pc: &PointCloud) -> Result<Option<Self>> {
@@ -667,9 +662,16 @@ impl Range {
 
     #[inline]
     fn normalize(&self, value: f64) -> f32 {
-        let clamped = value.clamp(self.min, self.max);
-        let normalized = (clamped - self.min) * self.inv_range;
-        normalized as f32
+        // Empty or undefined ranges cannot be normalized, all values are mapped to zero
+        if self.half_range.is_nan() || self.half_range <= 0.0 {
+            return 0.0;
+        }
+        let normalized = (value * 0.5 - self.min * 0.5) / self.half_range;
+        if normalized.is_nan() {
+            0.0
+        } else {
+            normalized.clamp(0.0, 1.0) as f32
+        }
     }
 }
 
